@@ -24,7 +24,7 @@ def str_body(t: V) -> str:
 
 def ts_inv(s: V) -> bool:
     """the only thing the parser's typing logic needs from the stream: there always is a current token"""
-    return isinstance(s, TokenStream) and is_tok(s.current)
+    return isinstance(s, TokenStream) and is_tok(s.current) and is_arr(s._pushed)
 
 
 def parsed_expr(e: V, env: V) -> bool:
